@@ -6,9 +6,12 @@ import (
 	"bufio"
 	"fmt"
 	"io"
+	"os"
 	"os/exec"
+	"path/filepath"
 	"strconv"
 	"strings"
+	"sync"
 	"time"
 )
 
@@ -34,6 +37,7 @@ type proc struct {
 	fdecl map[string]bool
 	dead  bool
 	stack []*Term // incremental mode: assertions currently pushed (one push level each)
+	mu    sync.Mutex
 }
 
 type QueryLog struct {
@@ -58,6 +62,7 @@ type Solver struct {
 	Errors    []string
 	Incremental bool
 	DiffEvery int // every n-th query is answered by a second solver and compared
+	RaceAfterMs int // start the other back ends when the default one has not answered after this long (default 4000)
 	Diffs     int
 	DiffBad   int
 	Dump      io.Writer // optional transcript
@@ -84,11 +89,22 @@ func (s *Solver) Close() {
 }
 
 func (p *proc) kill() {
+	p.mu.Lock()
+	defer p.mu.Unlock()
 	if p.cmd != nil {
 		p.in.Close()
 		p.cmd.Process.Kill()
 		p.cmd.Wait()
 		p.cmd = nil
+	}
+}
+
+// abort kills the solver process from another goroutine (a blocked ask returns with a read error).
+func (p *proc) abort() {
+	p.mu.Lock()
+	defer p.mu.Unlock()
+	if p.cmd != nil && p.cmd.Process != nil {
+		p.cmd.Process.Kill()
 	}
 }
 
@@ -476,20 +492,81 @@ func (s *Solver) Check(what string, asserts []*Term, want ...*Term) (Verdict, Mo
 	var model Model
 	var vals []uint64
 	used := ""
-	for _, p := range s.procs {
-		v, m, vs, err := s.ask(p, asserts, want)
-		if err != nil {
-			s.Errors = append(s.Errors, err.Error())
-			continue
+	// portfolio with a race: the default back end answers alone if it does so quickly; otherwise the other
+	// back ends are started on the same query and the first definite verdict wins (the losers are killed and
+	// restart with a fresh incremental stack at their next use)
+	type askRes struct {
+		p    *proc
+		v    Verdict
+		m    Model
+		vals []uint64
+		err  error
+	}
+	ch := make(chan askRes, len(s.procs))
+	run := func(p *proc) {
+		go func() {
+			v, m, vs, err := s.ask(p, asserts, want)
+			ch <- askRes{p, v, m, vs, err}
+		}()
+	}
+	pending := 0
+	started := map[*proc]bool{}
+	if len(s.procs) > 0 {
+		run(s.procs[0])
+		started[s.procs[0]] = true
+		pending++
+	}
+	raceAfter := time.Duration(s.RaceAfterMs) * time.Millisecond
+	if s.RaceAfterMs == 0 {
+		raceAfter = 4 * time.Second
+	}
+	timer := time.NewTimer(raceAfter)
+	launchRest := func() {
+		for _, p := range s.procs {
+			if !started[p] {
+				started[p] = true
+				run(p)
+				pending++
+			}
 		}
-		used = p.name
-		if v != Unknown {
-			verdict, model, vals = v, m, vs
-			break
+	}
+	for pending > 0 && verdict == Unknown {
+		select {
+		case r := <-ch:
+			pending--
+			if r.err != nil {
+				s.Errors = append(s.Errors, r.err.Error())
+				launchRest()
+				continue
+			}
+			used = r.p.name
+			if r.v != Unknown {
+				verdict, model, vals = r.v, r.m, r.vals
+			} else {
+				launchRest()
+			}
+		case <-timer.C:
+			launchRest()
+		}
+	}
+	timer.Stop()
+	if pending > 0 {
+		// losers still running: kill them and drain
+		for _, p := range s.procs {
+			if started[p] && (p.name != used || verdict == Unknown) {
+				p.abort()
+			}
+		}
+		for pending > 0 {
+			<-ch
+			pending--
 		}
 	}
 	d := time.Since(t0)
 	s.TimeTotal += d
+	if dir := os.Getenv("VERIF_DUMPUNKNOWN"); dir != "" && verdict == Unknown {
+		s.dumpStandalone(filepath.Join(dir, fmt.Sprintf("%s-%d.smt2", s.Harness, s.Queries)), what, asserts)
+	}
 	if len(s.Log) < 4000 {
 		s.Log = append(s.Log, QueryLog{Harness: s.Harness, What: what, Verdict: verdict.String(), Solver: used, Ms: float64(d.Microseconds()) / 1000, Size: len(asserts)})
 	}
@@ -512,4 +589,17 @@ func (s *Solver) Check(what string, asserts []*Term, want ...*Term) (Verdict, Mo
 		}
 	}
 	return verdict, model, vals
+}
+
+// dumpStandalone writes a self-contained SMT-LIB2 file for one query (debugging aid).
+func (s *Solver) dumpStandalone(path, what string, asserts []*Term) {
+	tmp := &proc{decl: map[*Term]bool{}, fdecl: map[string]bool{}}
+	var b strings.Builder
+	b.WriteString("; " + what + "\n(set-logic ALL)\n")
+	b.WriteString(s.declsFor(tmp, asserts))
+	for _, a := range asserts {
+		b.WriteString("(assert " + a.SMT() + ")\n")
+	}
+	b.WriteString("(check-sat)\n")
+	os.WriteFile(path, []byte(b.String()), 0644)
 }
